@@ -597,7 +597,9 @@ class Ctx:
         ev = {"property_id": self.prop, "tier": self.tier, "seed": self.seed, "level": self.level,
               "coverage": cov, "assumptions": self.assumptions, "wall_s": round(time.time() - self.t0, 2),
               "violations": len(self.violations)}
-        if not self.replay_path:
+        # evidence is only (re)written by runs against /repo itself, never by trial runs against a
+        # scratch checkout (VERIF_REPO) or by replays
+        if not self.replay_path and os.path.realpath(REPO) == "/repo":
             with open(os.path.join(ROOT, "evidence", self.prop + ".json"), "w") as f:
                 json.dump(ev, f, indent=1)
         self.log("obligations %d/%d discharged; %d evaluations (%d distinct non-trivial); %d violation(s); %d known finding(s)"
